@@ -5,7 +5,7 @@ R-BOUNDS is modular: a small table of function CONTRACTS (preconditions on posit
 on the length; postconditions of results), filled by reading this repository, is verified from both sides:
 inside each function every obligation must follow from the contract, dominating guards and provenance;
 at each call site the callee's preconditions must be established the same way."""
-from .core import walk, strip, term_str, component, const_int, STORE
+from .core import walk, strip, term_str, component, const_int, STORE, foreign_expansion
 from .flowvp import FlowVP, canon
 from .rules_decl import PQ, DPQ, QUEUES, QNAME
 from .rules_order import short
@@ -950,7 +950,7 @@ def r_bounds(ctx, view, only=None):
             if b["cleanup"]:
                 continue
             t = b["term"]
-            if t["span"]["exp"]:
+            if foreign_expansion(t["span"]):
                 continue
             if t["k"] == "assert":
                 msg = t["msg_s"]
